@@ -1,6 +1,7 @@
 package main
 
 import (
+	"sort"
 	"go/token"
 	"go/types"
 	"strings"
@@ -216,127 +217,7 @@ func checkC19(r *Run) {
 	r3.Floor(25)
 	r4.Floor(8)
 	// --- R-C19-1
-	impl := c.Func("wrapErrorImpl")
-	if impl == nil {
-		r1.Lost("wrapErrorImpl", "not found")
-	} else {
-		errP := impl.Params[0]
-		for _, ret := range returnsOf(impl) {
-			v := c.Resolve(ret.Results[0])
-			key := "wrapErrorImpl/return"
-			switch {
-			case isNilConst(v):
-				ok := false
-				for _, e := range nilEdges(impl, errP) {
-					if DominatedByEdge(impl, ret, e.B, e.K, PathQ{}) {
-						ok = true
-					}
-				}
-				if ok {
-					r1.OK(key, ret.Pos(), "nil passes through (only on the err == nil edge)")
-				} else {
-					r1.Bad(key, ret.Pos(), "wrapErrorImpl can turn a non-nil error into nil")
-				}
-			case c.globalLoadName(v) == "io.EOF":
-				ok := false
-				for _, b := range impl.Blocks {
-					iff := blockIf(b)
-					if iff == nil {
-						continue
-					}
-					bin, isB := iff.Cond.(*ssa.BinOp)
-					if !isB || bin.Op != token.EQL {
-						continue
-					}
-					if (bin.X == ssa.Value(errP) && c.globalLoadName(bin.Y) == "io.EOF") || (bin.Y == ssa.Value(errP) && c.globalLoadName(bin.X) == "io.EOF") {
-						if DominatedByEdge(impl, ret, b, 0, PathQ{}) {
-							ok = true
-						}
-					}
-				}
-				if ok {
-					r1.OK(key, ret.Pos(), "io.EOF passes through unwrapped (only on the err == io.EOF edge)")
-				} else {
-					r1.Bad(key, ret.Pos(), "io.EOF is returned for an error that is not io.EOF")
-				}
-			default:
-				al, ok := v.(*ssa.Alloc)
-				if !ok || typeName(al.Type()) != "Error" {
-					r1.Bad(key, ret.Pos(), "wrapErrorImpl returns %s, not an *Error holding the cause", describeVal(v))
-					continue
-				}
-				if ev := c.storedField(al, "Err"); ev != ssa.Value(errP) {
-					r1.Bad(key, ret.Pos(), "the *Error does not keep the wrapped cause in its Err field: errors.Is / Unwrap cannot reach the sentinel any more")
-				} else {
-					r1.OK(key, ret.Pos(), "&Error{Err: err, ...}")
-				}
-			}
-		}
-		// pass-throughs exist
-		hasEOF := false
-		for _, ret := range returnsOf(impl) {
-			if c.globalLoadName(c.Resolve(ret.Results[0])) == "io.EOF" {
-				hasEOF = true
-			}
-		}
-		if !hasEOF {
-			r1.Bad("wrapErrorImpl/eof", impl.Pos(), "io.EOF is no longer passed through unwrapped")
-		}
-		for _, n := range []string{"wrapError", "wrapErrorf", "wrapErrorWithRetry"} {
-			f := c.Func(n)
-			if f == nil {
-				r1.Lost(n, "not found")
-				continue
-			}
-			var call *ssa.Call
-			eachInstr(f, func(in ssa.Instruction) {
-				if c.isCallTo(in, impl) {
-					call = in.(*ssa.Call)
-				}
-			})
-			if call == nil || call.Call.Args[0] != ssa.Value(f.Params[0]) {
-				r1.Bad(n+"/delegates", f.Pos(), "%s does not wrap its error parameter through wrapErrorImpl", n)
-				continue
-			}
-			okAll := true
-			for _, ret := range returnsOf(f) {
-				v := c.Resolve(ret.Results[0])
-				if v == ssa.Value(call) {
-					continue
-				}
-				if n == "wrapErrorWithRetry" {
-					if al, ok := v.(*ssa.Alloc); ok && typeName(al.Type()) == "errorWithRetry" {
-						inner := c.Resolve(c.storedField(al, "errorInterface"))
-						// the handle stored is the function's own retry-handle parameter, wherever it stands
-						var hp ssa.Value
-						if wi, ok := c.wrapInfoOf(f); ok && wi.handle >= 0 && wi.handle < len(f.Params) {
-							hp = f.Params[wi.handle]
-						}
-						if c.errOrigin(inner) == ssa.Value(call) && hp != nil && c.storedField(al, "retryFn") == hp {
-							continue
-						}
-					}
-				}
-				okAll = false
-				r1.Bad(n+"/return", ret.Pos(), "%s returns something that is not the wrapped error", n)
-			}
-			if okAll {
-				r1.OK(n+"/delegates", f.Pos(), "delegates to wrapErrorImpl(err, ...) and returns its result%s", map[bool]string{true: " (embedded in *errorWithRetry with the given handle)", false: ""}[n == "wrapErrorWithRetry"])
-			}
-		}
-		// wrapErrorWithRetry must produce a handle-carrying error whenever wrapErrorImpl produced an *Error
-		if f := c.Func("wrapErrorWithRetry"); f != nil {
-			has := false
-			for _, ret := range returnsOf(f) {
-				if al, ok := c.Resolve(ret.Results[0]).(*ssa.Alloc); ok && typeName(al.Type()) == "errorWithRetry" {
-					has = true
-				}
-			}
-			if !has {
-				r1.Bad("wrapErrorWithRetry/handle", f.Pos(), "wrapErrorWithRetry never returns an *errorWithRetry")
-			}
-		}
-	}
+	c.ruleWrappersKeepCause(r1)
 	// --- R-C19-2 method sets
 	hasMethod := func(typ string, ptr bool, name string) bool {
 		n := c.NamedType(typ)
@@ -785,4 +666,235 @@ func nilEdgesOfAnyErrCall(c *Ctx, f *ssa.Function) []ifEdge {
 		}
 	})
 	return out
+}
+
+// ruleWrappersKeepCause (R-C19-1): every function of the wrapper family (wrapErrorImpl where it exists, wrapError, wrapErrorf,
+// wrapErrorWithRetry) returns, on every path, the cause itself, nil only for a nil cause, io.EOF only for io.EOF, an *Error
+// whose Err field is the cause (never for nil or io.EOF), the result of another wrapper applied to the cause, or an
+// *errorWithRetry holding such a value together with the handle it was given.
+func (c *Ctx) ruleWrappersKeepCause(r1 *RuleRep) {
+	family := map[*ssa.Function]string{}
+	for _, n := range []string{"wrapErrorImpl", "wrapError", "wrapErrorf", "wrapErrorWithRetry"} {
+		if f := c.Func(n); f != nil {
+			family[f] = n
+		} else if n != "wrapErrorImpl" {
+			r1.Lost(n, "not found")
+		}
+	}
+	if len(family) == 0 {
+		return
+	}
+	var fs []*ssa.Function
+	for f := range family {
+		fs = append(fs, f)
+	}
+	sort.Slice(fs, func(i, j int) bool { return family[fs[i]] < family[fs[j]] })
+	builds := false // some member constructs the *Error itself
+	for _, f := range fs {
+		name := family[f]
+		if len(f.Params) == 0 || types.TypeString(f.Params[0].Type(), nil) != "error" {
+			r1.Bad(name+"/delegates", f.Pos(), "%s does not take the cause as its first parameter", name)
+			continue
+		}
+		cause := ssa.Value(f.Params[0])
+		var handle ssa.Value
+		if wi, ok := c.wrapInfoOf(f); ok && wi.handle >= 0 && wi.handle < len(f.Params) {
+			handle = f.Params[wi.handle]
+		}
+		isEOF := func(v ssa.Value) bool { return c.globalLoadName(v) == "io.EOF" }
+		// what taking an edge establishes about a comparison: the tested comparison itself, or the last operand of a
+		// short-circuit `a || b` (false on the false edge) / `a && b` (true on the true edge) computed into a boolean
+		type implied struct {
+			bin   *ssa.BinOp
+			holds bool
+			b     *ssa.BasicBlock
+			k     int
+		}
+		var facts []implied
+		for _, b := range f.Blocks {
+			iff := blockIf(b)
+			if iff == nil {
+				continue
+			}
+			switch x := iff.Cond.(type) {
+			case *ssa.BinOp:
+				facts = append(facts, implied{x, true, b, 0}, implied{x, false, b, 1})
+			case *ssa.Phi:
+				var last *ssa.BinOp
+				nConst, konst, okShape := 0, false, true
+				for _, e := range x.Edges {
+					if kb, isK := constBool(e); isK {
+						if nConst > 0 && kb != konst {
+							okShape = false
+						}
+						konst = kb
+						nConst++
+						continue
+					}
+					bin, isB := e.(*ssa.BinOp)
+					if !isB || last != nil {
+						okShape = false
+						continue
+					}
+					last = bin
+				}
+				if okShape && nConst > 0 && last != nil {
+					if konst {
+						facts = append(facts, implied{last, false, b, 1})
+					} else {
+						facts = append(facts, implied{last, true, b, 0})
+					}
+				}
+			}
+		}
+		causeIs := func(bin *ssa.BinOp, other func(ssa.Value) bool) bool {
+			return (bin.X == cause && other(bin.Y)) || (bin.Y == cause && other(bin.X))
+		}
+		// causeKnown: `at` is dominated by an edge establishing that the cause is (want) / is not (!want) the given value
+		causeKnown := func(at ssa.Instruction, other func(ssa.Value) bool, want bool) bool {
+			for _, ft := range facts {
+				if !causeIs(ft.bin, other) {
+					continue
+				}
+				var equal bool
+				switch ft.bin.Op {
+				case token.EQL:
+					equal = ft.holds
+				case token.NEQ:
+					equal = !ft.holds
+				default:
+					continue
+				}
+				if equal == want && DominatedByEdge(f, at, ft.b, ft.k, PathQ{}) {
+					return true
+				}
+			}
+			return false
+		}
+		onNil := func(at ssa.Instruction, want bool) bool {
+			return causeKnown(at, func(v ssa.Value) bool { return isNilConst(v) }, want)
+		}
+		onEOF := func(at ssa.Instruction, want bool) bool { return causeKnown(at, isEOF, want) }
+		// ownError: v is an *Error built here around the cause
+		ownError := func(v ssa.Value) bool {
+			al, ok := c.errOrigin(v).(*ssa.Alloc)
+			if !ok {
+				al, ok = c.Resolve(v).(*ssa.Alloc)
+			}
+			return ok && typeName(al.Type()) == "Error" && c.Resolve(c.storedField(al, "Err")) == cause
+		}
+		wrappedByOther := func(v ssa.Value) bool {
+			call, callee := c.asCall(c.errOrigin(v))
+			if call == nil {
+				call, callee = c.asCall(v)
+			}
+			if call == nil || callee == nil || callee == f || len(call.Call.Args) == 0 {
+				return false
+			}
+			if _, member := family[callee]; !member {
+				return false
+			}
+			return c.Resolve(call.Call.Args[0]) == cause
+		}
+		okAll, hasRetry := true, false
+		var classify func(v ssa.Value, ret *ssa.Return, depth int) string
+		classify = func(v ssa.Value, ret *ssa.Return, depth int) string {
+			if depth > 6 {
+				return "a value the rule cannot trace"
+			}
+			rv := c.Resolve(v)
+			switch {
+			case rv == cause:
+				return ""
+			case isNilConst(rv):
+				if onNil(ret, true) {
+					return ""
+				}
+				return "nil for a cause that may be non-nil"
+			case isEOF(rv):
+				if onEOF(ret, true) {
+					return ""
+				}
+				return "io.EOF for an error that is not io.EOF"
+			case wrappedByOther(rv):
+				return ""
+			}
+			if phi, ok := rv.(*ssa.Phi); ok {
+				for _, e := range phi.Edges {
+					if why := classify(e, ret, depth+1); why != "" {
+						return why
+					}
+				}
+				return ""
+			}
+			if al, ok := rv.(*ssa.Alloc); ok {
+				switch typeName(al.Type()) {
+				case "Error":
+					if c.Resolve(c.storedField(al, "Err")) != cause {
+						return "an *Error that does not keep the wrapped cause in its Err field (errors.Is / Unwrap cannot reach the sentinel any more)"
+					}
+					builds = true
+					if !onNil(ret, false) {
+						return "an *Error for a cause that may be nil (nil would become a non-nil error)"
+					}
+					if !onEOF(ret, false) {
+						return "an *Error around io.EOF (io.EOF is no longer passed through unwrapped)"
+					}
+					return ""
+				case "errorWithRetry":
+					hasRetry = true
+					st, _ := al.Type().Underlying().(*types.Pointer).Elem().Underlying().(*types.Struct)
+					var base, hv ssa.Value
+					for i := 0; st != nil && i < st.NumFields(); i++ {
+						fld := st.Field(i)
+						val := c.storedField(al, fld.Name())
+						if val == nil {
+							continue
+						}
+						if typeName(fld.Type()) == "retryFn" {
+							hv = val
+						} else if _, isSig := fld.Type().Underlying().(*types.Signature); isSig {
+							hv = val
+						} else {
+							base = val
+						}
+					}
+					if handle == nil || hv == nil || c.Resolve(hv) != handle {
+						return "an *errorWithRetry that does not carry the handle it was given"
+					}
+					if base == nil || !(ownError(base) || wrappedByOther(base)) {
+						return "an *errorWithRetry whose base error is not the wrapped cause"
+					}
+					if ownError(base) {
+						builds = true
+						if !onNil(ret, false) || !onEOF(ret, false) {
+							return "a handle-carrying error for a cause that may be nil or io.EOF"
+						}
+					}
+					return ""
+				}
+			}
+			return describeVal(rv) + ", which is not the wrapped cause"
+		}
+		for _, ret := range returnsOf(f) {
+			if len(ret.Results) != 1 {
+				okAll = false
+				continue
+			}
+			if why := classify(ret.Results[0], ret, 0); why != "" {
+				okAll = false
+				r1.Bad(name+"/return", ret.Pos(), "%s returns %s", name, why)
+			}
+		}
+		if name == "wrapErrorWithRetry" && !hasRetry {
+			okAll = false
+			r1.Bad("wrapErrorWithRetry/handle", f.Pos(), "wrapErrorWithRetry never returns an *errorWithRetry")
+		}
+		if okAll {
+			r1.OK(name+"/delegates", f.Pos(), "every return is the cause, nil/io.EOF for a nil/io.EOF cause, an *Error{Err: cause}, another wrapper's result%s", map[bool]string{true: ", or these embedded in *errorWithRetry with the given handle", false: ""}[name == "wrapErrorWithRetry"])
+		}
+	}
+	if !builds {
+		r1.Bad("wrappers/build", token.NoPos, "no wrapper constructs an *Error around the cause")
+	}
 }
